@@ -109,6 +109,8 @@ impl<T: Qcow2IoOps> Qcow2Dev<T> {
         };
 
         let l2_handle = self.get_l2_slice(&split).await?;
+        #[cfg(qcow2_rs_verif)]
+        crate::verif::probe("discard:wait-slice-write");
         let mut l2_table = l2_handle.value().write().await;
 
         let entry = l2_table.get_entry(info, &split);
